@@ -485,6 +485,12 @@ func genSpecUD(r *gen.Rng, zeroPct int) (dcs int, udl int, ud []byte) {
 		ud = r.Bytes(2 * r.Pick(0, 1, 35, 69, 70, r.Intn(71)))
 		udl = len(ud)
 	}
+	if len(ud) > 1 && r.Chance(12) {
+		ud[0] = 0 // leading zero octets are data (UCS-2 Latin text, 8-bit data, '@' in the default alphabet)
+		if r.Bool() && len(ud) > 2 {
+			ud[1] = 0
+		}
+	}
 	if len(ud) > 0 {
 		if r.Chance(zeroPct) {
 			ud[len(ud)-1] = 0
